@@ -5,6 +5,7 @@ use serde_json::Value;
 use std::sync::Arc;
 
 pub mod c01;
+pub mod c02;
 pub mod c03;
 pub mod c04;
 pub mod c05;
@@ -26,6 +27,7 @@ pub struct Prop {
 pub fn lookup(id: &str) -> Option<Prop> {
     Some(match id {
         "C01" => Prop { isolate: false, level: "model_checking", run: c01::run, replay: c01::replay },
+        "C02" => Prop { isolate: false, level: "model_checking", run: c02::run, replay: c02::replay },
         "C03" => Prop { isolate: false, level: "model_checking", run: c03::run, replay: c03::replay },
         "C04" => Prop { isolate: true, level: "model_checking", run: c04::run, replay: c04::replay },
         "C05" => Prop { isolate: false, level: "model_checking", run: c05::run, replay: c05::replay },
